@@ -102,14 +102,15 @@ def exact_reach(ctx, start, steps):
 def run_case(ck: Check, case: dict):
     gd = graphs.GDef.from_json(case["gd"])
     cfg = case["cfg"]
-    ctx = algos.Ctx(ck, gd, cfg, extra_states=[case["start"]])
+    ctx = algos.Ctx(ck, gd, cfg, extra_states=[case["start"]] + ([case["dest"]] if case.get("dest") else []))
     if not ctx.ok:
         ck.count("skipped:" + ctx.reason.split(":")[0])
         return
     g = ctx.g
     start = case["start"]
+    target = case.get("dest") or list(gd.central)  # explicit destination_state (advanced mode only)
     dmap = ctx.dists_from(start)
-    d = dmap.get(gd.pack(gd.central))
+    d = dmap.get(gd.pack(target))
     # distance of every state TO the central state (for the adversarial predictors): BFS in the inverted graph = distances from central when closed
     ctx.dist_to_central = {}
     if g.definition.generators_inverse_closed:
@@ -130,6 +131,8 @@ def run_case(ck: Check, case: dict):
             kw["bfs_result_for_mitm"] = ball
     else:
         kw["history_depth"] = hist
+        if case.get("dest") is not None:
+            kw["destination_state"] = list(case["dest"])
     with ArgsortRecorder() as rec:
         st, res = algos.call(g.beam_search, **kw)
     unpruned = width > len(ctx.states)
@@ -140,6 +143,8 @@ def run_case(ck: Check, case: dict):
     ck.count("reachable" if d is not None else "unreachable")
     ck.count("unpruned" if unpruned else "pruned" if rec.calls else "narrow-never-filled")
     ck.count("ball" if ball is not None else "noball")
+    if case.get("dest") is not None:
+        ck.count("explicit-destination:" + ("=start" if list(case["dest"]) == list(start) else "=central" if list(case["dest"]) == list(gd.central) else "other"))
     rep = {"case": case, "true_distance": d}
     ic = g.definition.generators_inverse_closed
     if st != "ok":
@@ -152,11 +157,11 @@ def run_case(ck: Check, case: dict):
     if res.path_found:
         L = res.path_length
         reach = exact_reach(ctx, start, L)[L] if L <= 4 * len(ctx.states) + 5 else set()
-        if d is None or L < d or tuple(gd.central) not in reach:
-            ck.violation("C06/phantom/" + mode + ("/ball" if ball is not None else ""), "reported length is not the length of a real walk from the start state to the central state", dict(rep, observed={"path_length": L, "path": res.path}))
+        if d is None or L < d or tuple(target) not in reach:
+            ck.violation("C06/phantom/" + mode + ("/ball" if ball is not None else "") + ("/dest" if case.get("dest") else ""), "reported length is not the length of a real walk from the start state to the target", dict(rep, observed={"path_length": L, "path": res.path}))
             return
         if res.path is not None:
-            if len(res.path) != L or ctx.apply_path(start, res.path) != tuple(gd.central):
+            if len(res.path) != L or ctx.apply_path(start, res.path) != tuple(target):
                 ck.violation("C06/bad-path/" + mode, "returned path does not replay to the central state with the reported length", dict(rep, observed={"path_length": L, "path": res.path}))
                 return
         elif mode == "simple" and rp:
@@ -164,7 +169,7 @@ def run_case(ck: Check, case: dict):
             return
     if unpruned and d is not None and steps >= d:
         if not res.path_found or res.path_length != d:
-            ck.violation("C06/not-exact-unpruned/" + mode, "unpruned beam with sufficient steps did not succeed with exactly the shortest distance", dict(rep, observed={"found": res.path_found, "path_length": res.path_length}))
+            ck.violation("C06/not-exact-unpruned/" + mode + ("/dest" if case.get("dest") else ""), "unpruned beam with sufficient steps did not succeed with exactly the shortest distance", dict(rep, observed={"found": res.path_found, "path_length": res.path_length}))
             return
     # ---- correspondence with the model under the recorded choices
     pruned_steps = sorted(res.debug_scores.keys())
@@ -180,7 +185,7 @@ def run_case(ck: Check, case: dict):
         ball_line = "noball" if ball is None else ctx.layers_line(ball.layers_hashes)
         m = ctx.drv.ask(f"beam.simple {width} {steps} {1 if rp else 0} ; {gd.pack(start)} ; {ball_line} ; {sel_line}")
     else:
-        m = ctx.drv.ask(f"beam.adv {width} {steps} {hist} ; {gd.pack(start)} ; {gd.pack(gd.central)} ; {sel_line}")
+        m = ctx.drv.ask(f"beam.adv {width} {steps} {hist} ; {gd.pack(start)} ; {gd.pack(target)} ; {sel_line}")
     if m == "assert":
         ck.correspondence_break("beam model trips an assertion where the implementation returns a result", dict(rep, impl={"found": res.path_found, "len": res.path_length}))
         return
@@ -221,9 +226,16 @@ def gen_case(ck, cap):
         mode = rng.choice(["simple", "simple", "advanced"])
         width = rng.choice([1, 2, 3, 5, 10, n_states + 1, n_states * len(gd.gens) + 5])
         steps = rng.choice([1, 2, ecc, ecc + 1, 3 * ecc + 3, 50])
+        dest = None
+        if mode == "advanced" and rng.random() < 0.45:
+            r = rng.random()
+            dest = list(start) if r < 0.2 else list(gd.central) if r < 0.3 else list(rng.choice(orbit))
+            if r >= 0.3 and rng.random() < 0.3:
+                start = list(gd.central)
         c = {
             "gd": gd.to_json(),
             "cfg": graphs.gen_cfg(rng, gd),
+            "dest": dest,
             "start": start,
             "mode": mode,
             "width": width,
